@@ -514,6 +514,48 @@ def t1_reduce_fusion(ctx: Ctx):
 # ----------------------------------------------------------------------
 # W1 while unroll
 
+def x2_generated_names_are_fresh(ctx: Ctx):
+    """A rewriter takes the names it introduces -- loop counters, temporaries, renamed targets -- from a generator that
+    never hands out the same name twice.  That is what keeps two rewrites of one function apart: the counter of a loop
+    generated inside another generated loop must not be the outer one's (`[.. for a, b in zip(xs, ys) for c, d in zip(zs,
+    ws)]` reads xs at the inner index otherwise).  The guarantee is lost the moment a generated name is *kept*: so, in
+    every rewriter of `fpy2/transform`, no name obtained from `gensym.fresh` / `gensym.refresh` is stored in the
+    rewriter's own state (a plain attribute of `self`), directly or through a local."""
+    n = 0
+    for rel in sorted(r_ for r_ in ctx.repo.modules if r_.startswith('fpy2/transform/') and r_.endswith('.py')):
+        for q, fn in ctx.repo.functions(rel):
+            gens = [k for k in calls_in(fn) if (call_name(k) or '').endswith(('gensym.fresh', 'gensym.refresh'))]
+            if not gens or '.' not in q:
+                continue
+            n += len(gens)
+            # locals that hold a generated name (or a container built from them)
+            holds: set[str] = set()
+            changed = True
+            while changed:
+                changed = False
+                for s in ast.walk(fn):
+                    if isinstance(s, ast.Assign) and len(s.targets) == 1 and isinstance(s.targets[0], ast.Name) and s.targets[0].id not in holds:
+                        v = s.value
+                        if any(x in gens for x in ast.walk(v)) or any(isinstance(x, ast.Name) and x.id in holds for x in ast.walk(v)):
+                            holds.add(s.targets[0].id)
+                            changed = True
+            kept = []
+            for s in ast.walk(fn):
+                tgts = s.targets if isinstance(s, ast.Assign) else [s.target] if isinstance(s, (ast.AugAssign, ast.AnnAssign)) else []
+                for t in tgts:
+                    # (an entry of a table keyed by what the name is for -- `self.expr_to_name[e] = fresh` -- is one name
+                    # per key, not one name for everything: only a plain slot is a name kept for reuse)
+                    base = t
+                    if isinstance(base, ast.Attribute) and isinstance(base.value, ast.Name) and base.value.id == 'self' and s.value is not None:
+                        v = s.value
+                        if any(x in gens for x in ast.walk(v)) or any(isinstance(x, ast.Name) and x.id in holds for x in ast.walk(v)):
+                            kept.append(s)
+            ctx.check(not kept, rel, kept[0] if kept else fn, q, f'{q}: the {len(gens)} generated name(s) are used where they are made, none is kept in the rewriter',
+                      f'`{norm(kept[0])[:100]}` keeps a generated name for later rewrites: two loops generated in one function share a counter, and a loop nested in another reads the outer sources at the inner index' if kept else '')
+    if n < 40:
+        raise ShapeError(f'only {n} uses of the name generator found in fpy2/transform (66 confirmed by hand)')
+
+
 def w1_while_unroll(ctx: Ctx):
     q = '_WhileUnroll._visit_while'
     fn = ctx.fn(WHILE, q)
@@ -639,12 +681,15 @@ RULES = [
     Rule('C08.T1', 'reduce fusion keeps identity, operator, and binds the element before combining', t1_reduce_fusion, 8, 'T'),
     Rule('C08.S1', 'ReduceFusion hoists nothing out of conditionally or repeatedly evaluated positions', hoist_mask_rule([REDUCE_HOISTER], 'C08.S1'), 8, 'S,X'),
     Rule('C08.W1', 'while unroll: condition re-tested before every body copy', w1_while_unroll, 2, 'P'),
+    Rule('C08.X2', 'a name taken from the generator is used for the rewrite it was made for: none is kept in a rewriter\'s state', x2_generated_names_are_fresh, 20, 'X'),
     Rule('C08.X1', 'iterator elimination respects shadowing: every name a comprehension target binds (nested patterns included) keeps its own variable', x1_shadowing_names, 3, 'X'),
 ]
 
 from ..selftest import Mutant  # noqa: E402
 
 MUTANTS = [
+    Mutant('one-loop-counter-for-every-generated-loop', 'fpy2/transform/zip_elim.py', "        idx = self.gensym.fresh('_i')\n        # A tupled plan feeds every source into one slot;", "        if getattr(self, '_counter', None) is None:\n            self._counter = self.gensym.fresh('_i')\n        idx = self._counter\n        # A tupled plan feeds every source into one slot;", 'C08.X2',
+           'seeded change C08f: two zip stages of one comprehension share the counter'),
     Mutant('reduction-hoisted-out-of-a-with-header', REDUCE, "        context = self._visit_expr(stmt.ctx, None)\n", "        context = self._visit_expr(stmt.ctx, ctx)\n", 'C08.S1',
            'finding F121 before its repair: any([x + y > 2048 for x in xs]) in a with header is rounded under the FP16 around it'),
     Mutant('range-length-read-off-the-literals', UTILS, "    if array_size is None:\n        return None\n    bound = array_size.by_expr.get(iterable)",
